@@ -35,6 +35,7 @@ type variant struct {
 	race    bool
 	instr   bool
 	wide    bool // statement yields also in every file under primitives/
+	strobe  bool // ... and in internal/strobe/strobe.go
 	godebug string
 	binOf   string // shares the binary of another variant
 }
@@ -45,6 +46,7 @@ var variants = map[string]*variant{
 	"instr-race":  {name: "instr-race", instr: true, race: true},
 	"instrw":      {name: "instrw", instr: true, wide: true},
 	"instrw-race": {name: "instrw-race", instr: true, wide: true, race: true},
+	"instrs":      {name: "instrs", instr: true, wide: true, strobe: true},
 	"noavx2":      {name: "noavx2", godebug: "cpu.avx2=off", binOf: "plain"},
 	"purego":      {name: "purego", tags: "purego"},
 	"force32bit":  {name: "force32bit", tags: "force32bit"},
@@ -161,6 +163,7 @@ type builder struct {
 	overlayW string
 	sitesW   int
 	filesW   []string
+	overlayS string
 	mu       sync.Mutex
 	built    map[string]string
 }
@@ -204,6 +207,18 @@ func (b *builder) goCmd(args ...string) *exec.Cmd {
 	c.Dir = simDir
 	c.Env = goEnv
 	return c
+}
+
+func (b *builder) ensureOverlayS() {
+	if b.overlayS != "" {
+		return
+	}
+	gen := filepath.Join(b.dir, "gens")
+	os.RemoveAll(gen)
+	if _, err := instr.GenerateMode(repoDir, gen, 2); err != nil {
+		infra("instrumenter: %v", err)
+	}
+	b.overlayS = filepath.Join(gen, "overlay.json")
 }
 
 func (b *builder) ensureOverlay(wide bool) {
@@ -260,7 +275,10 @@ func (b *builder) build(vn string) string {
 	}
 	if v.instr {
 		b.ensureOverlay(v.wide)
-		if v.wide {
+		if v.strobe {
+			b.ensureOverlayS()
+			args = append(args, "-overlay", b.overlayS)
+		} else if v.wide {
 			args = append(args, "-overlay", b.overlayW)
 		} else {
 			args = append(args, "-overlay", b.overlay)
